@@ -421,6 +421,62 @@ theorem c05_sheet_not_stored (inflate : Dat.Inflate) (disk : Disk) (a : Archive)
       rw [sheetPagePath, c05_filename]; exact hl
     simp only [GameData.readExcelSheet, hp, extractFull_absent inflate disk a hr hw _ hl']
 
+/-- The handle-level glue and the abstract-`extract` model of `c05_sheet_lookup` /
+`c05_page_lookup` are two models of the same Rust functions; they agree: with `ex` = what
+`extract` returns on the handle at the moment of each call (no panic), the header call is
+`Exd.readExcelSheetHeader ex` on the parsed root list and the page call is `Exd.readExcelSheet ex`. -/
+theorem c05_glue_agrees_with_lookup (inflate : Dat.Inflate) (disk : Disk) (g : GameData.GameData)
+    (name : Bytes) (ex : Bytes → Option Bytes) :
+    (∀ root,
+      (extractFull inflate disk g rootListPath).1 = some (some root) →
+      (extractFull inflate disk (extractFull inflate disk g rootListPath).2 (sheetHeaderPath name)).1
+        = some (ex (sheetHeaderPath name)) →
+      (GameData.readExcelSheetHeader inflate disk g name).1 =
+        some (Exd.readExcelSheetHeader ex (ExcelRootList.fromExisting root).entries name)) ∧
+    (∀ (exh : Exh.EXH) (language : Exh.Language) (page : Nat),
+      (∀ pg, exh.pages[page]? = some pg →
+        (extractFull inflate disk g (sheetPagePath name language pg)).1
+          = some (ex (sheetPagePath name language pg))) →
+      (GameData.readExcelSheet inflate disk g name exh language page).1 =
+        match Exd.readExcelSheet ex name exh language page with
+        | .ok exd => some (some exd)
+        | .error .none => some none
+        | .error .panic => none) := by
+  constructor
+  · intro root h1 h2
+    unfold GameData.readExcelSheetHeader Exd.readExcelSheetHeader
+    generalize extractFull inflate disk g rootListPath = r at h1 h2
+    obtain ⟨res, g1⟩ := r
+    simp only [] at h1 h2
+    subst h1
+    simp only []
+    cases (ExcelRootList.fromExisting root).entries.find? (fun e => e.1 == name) with
+    | none => rfl
+    | some e =>
+      simp only []
+      generalize extractFull inflate disk g1 (sheetHeaderPath name) = r2 at h2
+      obtain ⟨res2, g2⟩ := r2
+      simp only [] at h2
+      subst h2
+      cases ex (sheetHeaderPath name) <;> rfl
+  · intro exh language page h
+    unfold GameData.readExcelSheet Exd.readExcelSheet
+    cases hp : exh.pages[page]? with
+    | none => rfl
+    | some pg =>
+      have h' := h pg hp
+      simp only []
+      generalize extractFull inflate disk g (sheetPagePath name language pg) = r at h'
+      obtain ⟨res, g1⟩ := r
+      simp only [] at h'
+      subst h'
+      simp only [sheetPagePath]
+      cases hx : ex ([0x65, 0x78, 0x64, 0x2f] ++ calculateFilename name language pg) with
+      | none => rfl
+      | some buf =>
+        simp only [Option.bind_some]
+        cases Exd.fromExisting buf <;> rfl
+
 /-! ### non-vacuity: a concrete installation -/
 section
 open Physis.Spec.SqPackData
@@ -512,6 +568,17 @@ example (cs1 cs2 : List Call) :
       (∀ id, id ∉ dRows.map (·.id) → readRow exd exh id = .error .none) :=
   c05_sheet_from_archive C02.storedInflate xDisk xArch xRealises xArch_wf 2 xRoot (by decide) xName
     (by decide) dSchema (by decide) 0 (by decide) .en dRows (by decide +kernel) xStores1 xStores2 xStores3 cs1 cs2
+
+/-- non-vacuity of `c05_glue_agrees_with_lookup` (header part): on the fresh handle of `xArch` both
+`extract` hypotheses hold, with `ex` = "the header of `dSchema`" -/
+example :
+    (extractFull C02.storedInflate xDisk (fresh xArch) rootListPath).1 = some (some (encodeRootList 2 xRoot)) ∧
+    (extractFull C02.storedInflate xDisk (extractFull C02.storedInflate xDisk (fresh xArch) rootListPath).2
+      (sheetHeaderPath xName)).1 = some ((fun _ => some (encodeExh dSchema)) (sheetHeaderPath xName)) := by
+  constructor
+  · exact extract_stored _ _ _ xRealises xArch_wf _ _ xStores1 []
+  · rw [extractFull_snd_run]
+    exact extract_stored _ _ _ xRealises xArch_wf _ _ xStores2 [.extract rootListPath]
 
 /-- non-vacuity of `c05_sheet_not_stored`: `B` is not listed; the German page is not stored -/
 example : ([0x42] : Bytes) ∉ xRoot.map (·.1) ∧ locate xArch (headerPath [0x42]) = none ∧
